@@ -94,6 +94,9 @@ Theorem c12_iter_bits : forall s : bitset, wfb s = true -> cap s < 2 ^ 64 ->
             (forall i, In i l <-> i < cap s /\ mem s i = true) /\
             next s (cap s) = Some (None, cap s).
 Proof. exact iter_bits_full. Qed.
+Theorem c12_iter_bits_each_once : forall (s : bitset) (l : list N) (idx : N), wfb s = true -> cap s < 2 ^ 64 ->
+  iter_bits s = Some (idx, l) -> NoDup l.
+Proof. exact iter_bits_nodup. Qed.
 (** one call of next from any cursor position: the least member at or after the cursor *)
 Theorem c12_next : forall (s : bitset) (idx : N), wfb s = true -> cap s < 2 ^ 64 -> idx <= cap s ->
   (exists m, next s idx = Some (Some m, m + 1) /\ idx <= m /\ m < cap s /\ mem s m = true /\
